@@ -36,7 +36,14 @@ func genC05(thorough bool) func(t *rapid.T) Case {
 			bo.DeepChain = rapid.IntRange(2, 12).Draw(t, "deep_chain")
 			bo.MaxRecipes = 14
 		}
-		c.Base = genCLIBase(t, baseOpts{shapes: names, book: bo, log: LogOpts{MaxDays: 6}, longNames: true})
+		lo := LogOpts{MaxDays: 6}
+		if rapid.IntRange(0, 4).Draw(t, "rounding_boundary") == 4 {
+			bo.Boundary, lo.Boundary = true, true
+		}
+		c.Base = genCLIBase(t, baseOpts{shapes: names, book: bo, log: lo, longNames: true})
+		if rapid.IntRange(0, 3).Draw(t, "extra_locals") == 3 {
+			c.Base.Inv.Locals = genExtraLocals(t, c.Base.Inv.Shape)
+		}
 		if rapid.Bool().Draw(t, "with_today") {
 			c.Today = baseDay.AddDate(0, 0, rapid.IntRange(0, 12).Draw(t, "today_off")).Format(defaultDateLayout)
 		}
